@@ -273,6 +273,11 @@ func c07Direct(c *RunCtx, g *Gen) {
 	all := append(cloneBytes(s.w), trailing...)
 	buf := bytes.NewBuffer(cloneBytes(all))
 	recv := newValue(name)
+	if cfg, restore := registryConfig(c, t); cfg != "" {
+		// the receiving process runs with fewer checksum services registered than the sender
+		defer restore()
+		c.Logf("RECEIVER CONFIGURATION %s", cfg)
+	}
 	r := tryDecode(recv, buf)
 	if r.Panic != nil {
 		c.Fail("C07/panic", name, "Decode of a valid encoding followed by %d trailing bytes panicked: %v", len(trailing), r.Panic)
@@ -323,6 +328,14 @@ func c07Pipeline(c *RunCtx, g *Gen) {
 		for i := 0; i < n; i++ {
 			name := pickType(t, 5)
 			m := g.Value(name)
+			if i > 0 && t.Intn(4) == 0 {
+				// the next message on this connection is a close relative of the previous one (same
+				// type, discriminator and numbers such as the sequence number; texts and lists cut or extended)
+				prev := cn.sent[i-1]
+				name = prev.name
+				m = variantOf(prev.pre, t.Bulk())
+				c.Probe("consecutive-relatives")
+			}
 			s := &sent{name: name, pre: Clone(m), post: m}
 			before := send.Len()
 			r := tryEncode(m, &send)
@@ -420,6 +433,14 @@ func c07Pipeline(c *RunCtx, g *Gen) {
 		pool[k] = v
 		return v
 	}
+	// delivered messages that the application keeps (fresh-receiver mode): each with a deep copy
+	// taken at delivery; later decodes must not change them
+	type kept struct {
+		obj, snap any
+		name     string
+		conn, i  int
+	}
+	var keep []kept
 	deliver := func(cn *conn) {
 		// try-decode loop on private copies of the accumulated bytes
 		for cn.next < len(cn.sent) {
@@ -452,6 +473,9 @@ func c07Pipeline(c *RunCtx, g *Gen) {
 			if consumed != len(exp.w) {
 				c.Fail("C07/consumed", exp.name, "conn %d message #%d (%s): decode consumed %d bytes but the message is %d bytes", cn.id, cn.next, exp.name, consumed, len(exp.w))
 				return
+			}
+			if !reuse && len(keep) < 16 {
+				keep = append(keep, kept{recv, Clone(recv), exp.name, cn.id, cn.next})
 			}
 			cn.acc = cn.acc[consumed:]
 			cn.next++
@@ -490,6 +514,13 @@ func c07Pipeline(c *RunCtx, g *Gen) {
 			return
 		}
 	}
+	for _, k := range keep {
+		c.Oracle("delivered-stays-equal")
+		if ok, d := Equal(k.snap, k.obj); !ok {
+			c.Fail("C07/delivered-changed-later", k.name, "conn %d message #%d (%s) equalled the message sent when it was delivered, but after the later messages of the run had been decoded (into other receiver objects) it differs at %s: the recovered messages are not independent of each other", k.conn, k.i, k.name, d)
+			return
+		}
+	}
 }
 
 // ---------------------------------------------------------------- C11
@@ -497,7 +528,7 @@ func c07Pipeline(c *RunCtx, g *Gen) {
 func init() {
 	register(&scenario{
 		Prop: "C11", Run: runC11, Level: "fault_enumeration", Quick: 120000, Thorough: 4000000,
-		Rule:        "one run = one canonical message of one of the 170 types (seeded value); the connection is cut after k bytes for EVERY k in 0..len-1 when the encoding is at most 4096 bytes, otherwise for 64 seeded positions plus the first field boundaries +-1; each prefix is decoded by a fresh receiver. Oracle: Decode(w[:k]) returns a non-nil error for every strict prefix. The crash points per message are enumerated; the messages are seeded samples. Non-trivial = at least one cut was applied (types with an empty encoding have no strict prefix and are counted as skipped); distinct = distinct run fingerprints.",
+		Rule:        "one run = one canonical message of one of the 170 types (seeded value); the connection is cut after k bytes for EVERY k in 0..len-1 when the encoding is at most 4096 bytes, otherwise for 64 seeded positions plus the first field boundaries +-1; each prefix is decoded by a fresh receiver, or - as the bytes of a frame arrive - by ONE reused receiver that starts empty or holding this message or a close relative of it. Oracle: Decode(w[:k]) returns a non-nil error for every strict prefix. The crash points per message are enumerated; the messages are seeded samples. Non-trivial = at least one cut was applied (types with an empty encoding have no strict prefix and are counted as skipped); distinct = distinct run fingerprints.",
 		Assumptions: []string{"values canonical w.r.t. the pinned schema"},
 	})
 }
@@ -552,9 +583,41 @@ func runC11(c *RunCtx) {
 	c.Count("cuts", uint64(len(ks)))
 	shape := drawBufShape(t)
 	c.Logf("RECEIVE BUFFER: %s", shape)
+	// the receiver: a fresh object per attempt, or ONE object that the receive loop keeps using
+	// while the bytes arrive (k grows) - empty at first, or holding this very message or a close
+	// relative of it from an earlier delivery
+	var held any
+	switch t.Intn(4) {
+	case 1:
+		held = newValue(name)
+	case 2:
+		held = newValue(name)
+		if rr := tryDecode(held, bytes.NewBuffer(cloneBytes(s.w))); rr.Err != nil || rr.Panic != nil {
+			held = nil
+		}
+	case 3:
+		var vb bytes.Buffer
+		if rr := tryEncode(variantOf(s.pre, t.Bulk()), &vb); rr.Err == nil && rr.Panic == nil {
+			held = newValue(name)
+			if rr := tryDecode(held, bytes.NewBuffer(cloneBytes(vb.Bytes()))); rr.Err != nil || rr.Panic != nil {
+				held = nil
+			}
+		}
+	}
+	if held != nil {
+		c.Fire("recv.dirty")
+		c.LogValue("RECEIVER (reused for every attempt) HOLDS", held)
+	}
+	if cfg, restore := registryConfig(c, t); cfg != "" {
+		defer restore()
+		c.Logf("RECEIVER CONFIGURATION %s", cfg)
+	}
 	for _, k := range ks {
 		buf := shape.build(c, s.w[:k])
-		recv := newValue(name)
+		recv := held
+		if recv == nil {
+			recv = newValue(name)
+		}
 		r := tryDecode(recv, buf)
 		if r.Panic != nil {
 			c.Probe("panic-on-truncated-input(reported-by-C09)")
@@ -715,8 +778,71 @@ func runC08(c *RunCtx) {
 
 func tickBudget(n int) uint64 { return 5000 + 100*uint64(n) }
 
-// faultedInput draws a decoder type and a (usually malformed) input for it.
+// faultedInput draws a decoder type and a (usually malformed) input for it; in one run of four
+// a second, independent fault is applied on top of the first (an understated or stale
+// self-computed field AND a cut; a hostile prefix AND a flip; ...): error paths that look at
+// two wire values at once only misbehave when both are off.
 func faultedInput(c *RunCtx, g *Gen, hostileOnly bool) (name string, w []byte, desc string) {
+	name, w, desc, spans := faultedInput1(c, g, hostileOnly)
+	if len(w) == 0 || c.T.Intn(4) != 0 {
+		return
+	}
+	t := c.T
+	switch t.Intn(3) {
+	case 0:
+		// a self-computed field (frame body length, checksum) understated, zero or slightly off
+		cs := spansOfKind(spans, "computed")
+		if len(cs) > 0 {
+			sp := cs[t.Intn(len(cs))]
+			if sp.Off+sp.Len <= len(w) {
+				w = cloneBytes(w)
+				var v uint64
+				switch t.Intn(4) {
+				case 0:
+					v = 0
+				case 1:
+					v = uint64(t.Intn(16))
+				case 2:
+					cur := uint64(0)
+					for i := 0; i < sp.Len; i++ {
+						if sp.LE {
+							cur |= uint64(w[sp.Off+i]) << (8 * uint(i))
+						} else {
+							cur = cur<<8 | uint64(w[sp.Off+i])
+						}
+					}
+					v = cur - 1 - uint64(t.Intn(8))
+				default:
+					v = uint64(t.Intn(1 << 16))
+				}
+				putN(w[sp.Off:], sp.Len, sp.LE, v)
+				desc += fmt.Sprintf(" + %s:=%d", describeSpan(sp), v)
+				c.Fire("net.second-fault")
+			}
+		}
+	case 1:
+		k := t.Intn(len(w))
+		w = w[:k]
+		desc += fmt.Sprintf(" + cut(%d)", k)
+		c.Fire("net.second-fault")
+	default:
+		var d string
+		w, d = flipBits(t, w, spans)
+		desc += " + " + d
+		c.Fire("net.second-fault")
+	}
+	if c.T.Intn(2) == 0 && len(w) > 0 {
+		// and possibly a cut after that (the frame arrived in two reads)
+		k := t.Intn(len(w) + 1)
+		if k < len(w) {
+			w = w[:k]
+			desc += fmt.Sprintf(" + cut(%d)", k)
+		}
+	}
+	return
+}
+
+func faultedInput1(c *RunCtx, g *Gen, hostileOnly bool) (name string, w []byte, desc string, spans []Span) {
 	t := c.T
 	name = pickType(t, 3)
 	mode := t.Intn(10)
@@ -735,7 +861,7 @@ func faultedInput(c *RunCtx, g *Gen, hostileOnly bool) (name string, w []byte, d
 		}
 		w = noise(t, n)
 		c.Fire("net.foreign")
-		return name, w, fmt.Sprintf("noise(%d)", n)
+		return name, w, fmt.Sprintf("noise(%d)", n), spans
 	}
 	src := name
 	if mode == 6 {
@@ -743,9 +869,10 @@ func faultedInput(c *RunCtx, g *Gen, hostileOnly bool) (name string, w []byte, d
 	}
 	s, ok := genSent(c, g, src)
 	if !ok {
-		return name, nil, "unencodable"
+		return name, nil, "unencodable", spans
 	}
-	spans, total := Layout(s.post)
+	var total int
+	spans, total = Layout(s.post)
 	if total != len(s.w) {
 		spans = nil
 		c.Probe("aim.layout-mismatch(blind faults only)")
@@ -757,30 +884,30 @@ func faultedInput(c *RunCtx, g *Gen, hostileOnly bool) (name string, w []byte, d
 			k = t.Intn(len(s.w))
 			c.Fire("net.cut")
 		}
-		return name, s.w[:k], fmt.Sprintf("cut(%d of %d)", k, len(s.w))
+		return name, s.w[:k], fmt.Sprintf("cut(%d of %d)", k, len(s.w)), spans
 	case 1, 7:
 		w, desc = flipBits(t, s.w, spans)
 		if !bytes.Equal(w, s.w) {
 			c.Fire("net.flip")
 		}
-		return name, w, desc
+		return name, w, desc, spans
 	case 2, 8:
 		var fired bool
 		w, desc, fired = hostilePrefix(t, s.w, spans)
 		if fired {
 			c.Fire("net.hostile")
 		}
-		return name, w, desc
+		return name, w, desc, spans
 	case 4:
 		var fired bool
 		w, desc, fired = unknownDiscriminator(t, s.w, spans)
 		if fired {
 			c.Fire("net.unknown-discriminator")
-			return name, w, desc
+			return name, w, desc, spans
 		}
 		w, desc = flipBits(t, s.w, spans)
 		c.Fire("net.flip")
-		return name, w, desc
+		return name, w, desc, spans
 	case 5:
 		k := 0
 		if len(s.w) > 0 {
@@ -789,12 +916,12 @@ func faultedInput(c *RunCtx, g *Gen, hostileOnly bool) (name string, w []byte, d
 		tailN := t.Intn(64)
 		w = append(cloneBytes(s.w[:k]), noise(t, tailN)...)
 		c.Fire("net.foreign")
-		return name, w, fmt.Sprintf("valid-prefix(%d)+garbage(%d)", k, tailN)
+		return name, w, fmt.Sprintf("valid-prefix(%d)+garbage(%d)", k, tailN), spans
 	case 6:
 		c.Fire("net.foreign")
-		return name, s.w, "valid encoding of " + src
+		return name, s.w, "valid encoding of " + src, spans
 	default:
-		return name, s.w, "unfaulted"
+		return name, s.w, "unfaulted", spans
 	}
 }
 
@@ -816,6 +943,10 @@ func runC09(c *RunCtx) {
 	name, w, desc := faultedInput(c, g, false)
 	if w == nil && desc == "unencodable" {
 		return
+	}
+	if cfg, restore := registryConfig(c, c.T); cfg != "" {
+		defer restore()
+		desc += "; " + cfg
 	}
 	c.Count("type."+name, 1)
 	shape := drawBufShape(c.T)
@@ -1000,6 +1131,12 @@ func runC15(c *RunCtx) {
 		dirty = g.Value(name)
 		g.cfg = saved
 		how = "generator-filled"
+		if t.Intn(2) == 0 {
+			if n := aliasLists(reflect.ValueOf(dirty).Elem()); n > 0 {
+				how = "generator-filled, with lists of equal type sharing one backing array (as an application that built it from windows of one slice would leave it)"
+				c.Probe("history.aliased-lists")
+			}
+		}
 		c.LogValue("RECEIVER HELD", dirty)
 	case 3:
 		dirty = newValue(name)
@@ -1169,6 +1306,62 @@ func runC16(c *RunCtx) {
 		}
 	}
 	c.T.ObserveBytes(snap)
+}
+
+// aliasLists rearranges the numeric and text lists reachable from a value so that lists of the
+// same element type are adjacent windows of ONE backing array (the first window's capacity
+// extends over the following ones).  Contents are unchanged.  It returns how many lists share.
+func aliasLists(rv reflect.Value) int {
+	byType := map[reflect.Type][]reflect.Value{}
+	var order []reflect.Type
+	var walk func(v reflect.Value)
+	walk = func(v reflect.Value) {
+		switch v.Kind() {
+		case reflect.Ptr, reflect.Interface:
+			if !v.IsNil() {
+				walk(v.Elem())
+			}
+		case reflect.Struct:
+			for i := 0; i < v.NumField(); i++ {
+				if v.Type().Field(i).IsExported() {
+					walk(v.Field(i))
+				}
+			}
+		case reflect.Slice:
+			ek := v.Type().Elem().Kind()
+			if (isNumKind(ek) || ek == reflect.String) && v.CanSet() && v.Len() > 0 {
+				if _, ok := byType[v.Type()]; !ok {
+					order = append(order, v.Type())
+				}
+				byType[v.Type()] = append(byType[v.Type()], v)
+			} else {
+				for i := 0; i < v.Len() && i < 8; i++ {
+					walk(v.Index(i))
+				}
+			}
+		}
+	}
+	walk(rv)
+	n := 0
+	for _, ty := range order {
+		ls := byType[ty]
+		if len(ls) < 2 {
+			continue
+		}
+		total := 0
+		for _, l := range ls {
+			total += l.Len()
+		}
+		arr := reflect.MakeSlice(ty, total, total)
+		off := 0
+		for _, l := range ls {
+			reflect.Copy(arr.Slice(off, off+l.Len()), l)
+			l.Set(arr.Slice(off, off+l.Len()))
+			off += l.Len()
+			n++
+		}
+	}
+	return n
 }
 
 // mutateInPlace overwrites everything reachable from a message without replacing the
